@@ -43,7 +43,8 @@ CHECKS: dict[str, tuple[str, str, str, str]] = {
         "reference-model monitor: real parses in 4 execution modes compared with an executable reference PEG semantics",
         "All 342 expression trees of depth <= 2 over the core terminals (a seeded sample of depth 3 in the thorough tier), seeded random "
         "well-formed grammars over the core operators (a quarter under hostile rule names such as SKIP, class, _x_) and the trivia-free "
-        "slice of a construct x context matrix are loaded by the real front end and run (interpreter, optimized interpreter, both generated modules) on ALL strings over the "
+        "slice of a construct x context matrix, and a scale family (16 shapes at 12 sizes up to the stated bounds, rule-stack depth up to 300) "
+        "are loaded by the real front end and run (interpreter, optimized interpreter, both generated modules) on ALL strings over the "
         "grammar's alphabet up to a length bound plus derivation-guided longer inputs; every outcome and tree is compared with "
         "pv/ref/refpeg.py (functional evaluator, immutable state). Held = no disagreement on the cases explored; not a proof.",
         "trusted: pv/ref/refpeg.py as pest's semantics (bounded repetitions evaluated as pest's unrolled sequences); the reference "
@@ -105,9 +106,9 @@ CHECKS: dict[str, tuple[str, str, str, str]] = {
         "exception-type monitor at the API boundary + logical step budget + repeat-call comparison over a hostile workload",
         "Hostile workload (stack operations weighted up, counts of zero, zero-width stack repetitions, out-of-range PEEK slices, every rule "
         "as start rule, empty input, all short inputs = all truncations, bare stack ops in every context, the stack-dig and stack-swap "
-        "families, bundled grammars on truncations and mutants) in 4 modes: anything other than Pairs or "
+        "families, the scale family incl. rule-stack depth up to 300 and stop sets of up to 64 strings, bundled grammars on truncations and mutants) in 4 modes: anything other than Pairs or "
         "PestParsingError escaping, a step budget of 1000 x reference steps + 1e5 exceeded, or an unequal second call is a violation.",
-        "well-formed grammars by construction; deep inputs / RecursionError are abstentions; termination is judged in logical steps",
+        "well-formed grammars by construction; rule depth beyond 350 / RecursionError are abstentions; termination is judged in logical steps",
         "DESIGN.md 4/C07",
     ),
     "C13": (
@@ -123,7 +124,7 @@ CHECKS: dict[str, tuple[str, str, str, str]] = {
         "metamorphic monitor: parse(t, start_pos=k) vs parse(t[k:]) shifted, and prefix replacement, for all k, each mode against itself",
         "SOI-free random grammars of all profiles and the matrix, and SOI-free rules of the bundled grammars: for every input and every k "
         "the result at start_pos=k must equal the shifted suffix result (trees, failure position and expected sets) and must not change "
-        "when the characters before k are replaced.",
+        "when the characters before k are replaced (by ASCII characters, by non-ASCII characters and by line breaks).",
         "relative property; grammars / rules that can reach SOI are excluded by a static check",
         "DESIGN.md 4/C16",
     ),
@@ -140,7 +141,8 @@ CHECKS: dict[str, tuple[str, str, str, str]] = {
     "C11": (
         "exception-type and message monitor over exhaustive truncations, pointwise mutations and generated texts",
         "Every prefix of every bundled grammar (stride in quick), prefixes of generated grammars, every single-character edit at "
-        "every offset of small grammars, derivations, printed ASTs, mutants, soups and edge texts are loaded with and without the "
+        "every offset of small grammars, derivations, printed ASTs, mutants, soups, edge texts and the printed grammars of the scale and "
+        "optimizer-target families (with empty literals as operands) are loaded with and without the "
         "optimizer: only Parser or PestGrammarError may come out, str() must render and the printed line:col must exist in the text. "
         "Termination is judged in logical steps: more than 20 000 function entries inside pest/ per grammar character + 1e6 (sys.monitoring "
         "PY_START; honest loads need at most ~2 200 per character) within the stated bounds is a violation.",
@@ -174,6 +176,8 @@ CHECKS: dict[str, tuple[str, str, str, str]] = {
         "runs (8-16 threads on shared objects, 1 us switch interval, seeded sleep(0) on LINE events inside pest and generated frames, "
         "concurrent builders) compared with the single-threaded baseline. Every parse runs under a logical step budget (20 000 checkpoints + rule "
         "entries; the pool needs < 400), so a history that makes a later call diverge ends as a result that differs from the pristine one. "
+        "Focus runs aim all threads at one rule whose parse() was seen (attribute fingerprints before/after a call, after warm-up) to keep "
+        "writing to objects shared by all calls - at a random rule when there is none. "
         "The evidence reports switches and yields actually observed.",
         "the fresh-process result is the specification; CPython GIL: byte-code interleavings are sampled, not enumerated",
         "DESIGN.md 4/C15",
